@@ -1635,6 +1635,8 @@ class PCE500Emulator:
             if span and span <= len(overlay.data):
                 overlay.data[:span] = flat_memory[start : start + span]
 
+        self.memory.import_memory_card(flat_memory)
+
         if imem_bytes:
             self.memory.external_memory[-len(imem_bytes) :] = imem_bytes
 
